@@ -13,11 +13,11 @@
 EXTENDS Naturals, Integers, Sequences, FiniteSets, TLC
 
 Positions == {"from", "join", "in", "cmp", "select-item", "cte", "insert-select", "setop-base", "setop-operand", "create-as",
-              "in-bool-group", "cmp-bool-group", "in-not", "join-on-operand", "having-operand", "function-arg", "case-branch"}
+              "in-bool-group", "cmp-bool-group", "in-not", "cmp-not", "join-on-operand", "having-operand", "function-arg", "case-branch"}
 Embed == [p \in Positions |->
             CASE p \in {"from", "join"} -> [paren |-> TRUE, alias |-> TRUE]
               [] p = "select-item" -> [paren |-> TRUE, alias |-> TRUE]
-              [] p \in {"in", "cmp", "cte", "create-as", "in-bool-group", "cmp-bool-group", "in-not", "join-on-operand", "having-operand",
+              [] p \in {"in", "cmp", "cte", "create-as", "in-bool-group", "cmp-bool-group", "in-not", "cmp-not", "join-on-operand", "having-operand",
                          "function-arg", "case-branch"} -> [paren |-> TRUE, alias |-> FALSE]
               [] p = "insert-select" -> [paren |-> FALSE, alias |-> FALSE]
               [] OTHER -> [paren |-> TRUE, alias |-> FALSE]]     \* set operands: bracketed unless the dialect does not wrap
